@@ -113,7 +113,7 @@ Example example_two_calls :
    target_state nf (go (half ++ rest)), temp_state nf (go (half ++ rest)) 0%nat, temp_state nf (go (half ++ rest)) 1%nat,
    w_res (s_ws (go (half ++ rest)) 0%nat), w_res (s_ws (go (half ++ rest)) 1%nat),
    w_status (s_ws (go (half ++ rest)) 0%nat), w_status (s_ws (go (half ++ rest)) 1%nat))
-  = (TOldFile 384%Z, TPartial, TPartial,
+  = (TOldFile 384%Z, TNewFile 0%nat 384%Z (* complete, still 0600, not yet renamed *), TPartial,
      TNewFile 0%nat 420%Z, TAbsent, TAbsent, ROk, RErr, Returned, Returned).
 Proof. vm_compute. reflexivity. Qed.
 
